@@ -4,10 +4,12 @@ import (
 	"bytes"
 	"context"
 	"encoding/binary"
+	"errors"
 	"fmt"
 	"io"
 	"math/big"
 	"math/rand"
+	"net"
 	"net/http"
 	"net/http/httptest"
 	"strings"
@@ -265,6 +267,56 @@ func checkC09(e *core.Env) {
 			}
 			if hi := D.Sub(starts[k]); d.Cmp(big.NewInt(int64(hi))) > 0 {
 				e.Violate("client/extended/later-call", fmt.Sprintf("call #%d made with the same context: %v remained when it started but GRPC-Timeout=%s (longer; the first call carried %s)", k+1, hi, h[0], hdrs[0][0]), nil)
+				return
+			}
+		}
+	})
+
+	// connections that cannot be established at first (a server that is restarting): however often the library
+	// tries again within one call, every request it issues carries what remains at that time - a request issued
+	// after an earlier attempt had failed never carries more than remained when that earlier attempt was made
+	e.Cases("client-dial-failure", e.N(8, 80), func(i int, r *rand.Rand) {
+		var hdrs [][]string
+		var at []time.Time
+		var mu sync.Mutex
+		rt := rtFunc(func(rq *http.Request) (*http.Response, error) {
+			mu.Lock()
+			defer mu.Unlock()
+			at = append(at, time.Now())
+			hdrs = append(hdrs, rq.Header["Grpc-Timeout"])
+			if len(at) <= 3 {
+				return nil, &net.OpError{Op: "dial", Net: "tcp", Err: errors.New("connect: connection refused")}
+			}
+			return nil, fmt.Errorf("recorded")
+		})
+		ch := &httpgrpc.Channel{BaseURL: mustURL("http://c09.test/"), Transport: rt}
+		rem := pick(r, 5*time.Second, time.Minute, time.Hour)
+		D := time.Now().Add(rem)
+		ctx := virtualDeadlineCtx{context.Background(), D}
+		if i%2 == 0 {
+			ch.Invoke(ctx, Unary.Method(), &tpb.Message{}, new(tpb.Message))
+		} else {
+			cctx, cancel := context.WithCancel(ctx)
+			if st, err := ch.NewStream(cctx, ServerStream.StreamDesc(), ServerStream.Method()); err == nil {
+				st.Header()
+			}
+			cancel()
+		}
+		mu.Lock()
+		defer mu.Unlock()
+		e.Eval(fmt.Sprintf("client-dial-failure|%v|attempts=%d", i%2 == 0, len(at)), true)
+		e.Count("dial_failure_attempts_observed", int64(len(at)))
+		for k := 1; k < len(at); k++ {
+			if len(hdrs[k]) != 1 {
+				e.Violate("client/missing", fmt.Sprintf("attempt #%d of one call: GRPC-Timeout header = %q", k+1, hdrs[k]), nil)
+				return
+			}
+			d, ok := parseTimeoutExact(hdrs[k][0])
+			if !ok {
+				continue
+			}
+			if hi := D.Sub(at[k-1]); d.Cmp(big.NewInt(int64(hi))) > 0 {
+				e.Violate("client/extended/later-attempt", fmt.Sprintf("attempt #%d of one call (the connection could not be established before) carries GRPC-Timeout=%s although only %v remained when attempt #%d was made", k+1, hdrs[k][0], hi, k), nil)
 				return
 			}
 		}
